@@ -219,6 +219,18 @@ class _SimRaw(io.RawIOBase):
     def writable(self):
         return True
 
+    def seekable(self):
+        return True
+
+    def tell(self):
+        return os.lseek(self._fd, 0, os.SEEK_CUR)
+
+    def seek(self, offset, whence=os.SEEK_SET):
+        return os.lseek(self._fd, offset, whence)
+
+    def fileno(self):
+        return self._fd
+
     def write(self, b):
         if self._failed is not None:
             raise self._failed()
